@@ -5,6 +5,7 @@ import streams
 
 ID = "C12"
 THEOREMS = ["build_calls_nothing", "value_calls_once", "value_changes_nothing_else", "root_recoverable", "no_or_many_roots_rejected", "inv_run"]
+LEANCHECKER_MODULES = ["Fadl.Props.C12", "Fadl.Lemmas.StreamInv"]  # re-checked by leanchecker in the thorough tier
 EXPLANATION = ("Theorems: no operation other than value() appends to the call log (build_calls_nothing); in every reachable state value() appends exactly one invocation, of the override if given else of the executor of the dataset the stream was derived from, with removeEmptyMD of the stream's query and the title (value_calls_once; the executor invariant survives the shallow copy QMetaData makes); the root dataset is recoverable (root_recoverable) and 0 / >= 2 roots are rejected. Correspondence: call log and executor of every stream after every step. Oracle (real asyncio): exactly one call per value(), right dataset, query = declarative strip-empty reference, title, returned value / raised exception identity, concurrently awaited calls completed in a generated permutation. PARTIAL: delivery of an awaited coroutine's outcome to its awaiter and make_sync's thread hand-off are asyncio/runtime behaviour, exercised by the oracle, not proved.")
 ASSUMPTIONS = ["asyncio delivers an awaited coroutine's outcome to its awaiter; make_sync runs the coroutine to completion (runtime, exercised not proved)"]
 RULE = (
